@@ -69,7 +69,7 @@ PROPS = {
                 rule="elements reached by random histories (Add, Sub, Double, Neg, ScalarMul, AddMixed, Set, Normalize, MSM both engines, decode) in representations Z=1 / rescaled / sign-flipped, including the all-zero value; Bytes, Equal matrix over all pairs, decode(Bytes)."),
     "C08": dict(ties=['Formulas', 'Elements', 'GoIpa.Lemmas.EdwardsAssoc', 'GoIpa.Props.C08Group', 'GoIpa.Props.C08Order', 'GoIpa.Props.C08Concrete'], level="proof",
                 rule="random group histories plus explicit law instances ((s+t)P, s(P+Q), 0*P, (r-1)P+P, P-P, P+O, -P) with special scalars; every operation also executed with the receiver aliasing each operand; all representations; identity-class operands of ScalarMul."),
-    "C09": dict(ties=['Msm', 'Selector', 'MsmChunk', 'Recode', 'MultiExpDriver', 'BatchConv', 'GoIpa.Lemmas.Pippenger', 'GoIpa.Lemmas.PipBits', 'GoIpa.Props.C09Msm'], level="proof", workers=4, model_workers=16,
+    "C09": dict(ties=['Msm', 'Selector', 'MsmChunk', 'Recode', 'MultiExpDriver', 'BatchConv', 'Consts', 'GoIpa.Lemmas.Pippenger', 'GoIpa.Lemmas.PipBits', 'GoIpa.Props.C09Msm'], level="proof", workers=4, model_workers=16,
                 rule="n crossing every window-size threshold up to 4097 (thorough 32768), NbTasks in {0,1,2,3,5,8,16,17,64,1024}, Montgomery and regular scalars, >=10% small scalars, duplicates / opposite points / identity, zero and r-1 scalars; every implemented window c in {4..16,20,21,22} through the internal entry point with boundary digit patterns, with and without first-chunk split."),
     "C10": dict(ties=['Consts', 'Serde'], level="proof",
                 rule="honest 576-byte proofs, one byte short/long, lengths 0..1152, field-wise boundary values (p-1,p,p+1,0,2^256-1, non-subgroup, off-curve, x+p; r-1,r,r+1,s+r) at each of the 18 positions, random bit flips; reader scripts: one shot, 1 byte at a time, halves, data+EOF together, odd chunkings, I/O failure at offset k; writer failing at each Write call."),
@@ -82,7 +82,7 @@ PROPS = {
                        {"name": "conc4-cpu3-procs7-race", "args": ["-conc", "4"], "prefix": taskset(3), "env": {"GOMAXPROCS": "7"}}],
                 rule="mixed API histories (commit, multiproof create+verify, IPA, MSM, group programs, batch helpers, transcripts, decoders, DivideOnDomain, serde) issued from 4/8/16 goroutines sharing one IPAConfig, race detector on, GOMAXPROCS 1/2/16; every output must equal the sequential model output.",
                 explanation="Protocol-level theorems (order independence of every merge, no deadlock / all results delivered for the fan-out/fan-in skeletons) are proved on the model; absence of data races and real scheduling are runtime facts sampled with the Go race detector, not proved."),
-    "C13": dict(level="proof", workers=1, model_workers=16,
+    "C13": dict(ties=['Consts', 'BatchConv', 'FrCodec'], level="proof", workers=1, model_workers=16,
                 modes=[{"name": "purity-fingerprint", "args": ["-purity"]},
                        {"name": "purity-cpu2", "args": ["-purity"], "prefix": taskset(2), "filter": "^mp "},
                        # one P: sync.Pool hands a recycled object straight back to the next call
